@@ -90,7 +90,7 @@ fn stateless_case(kind: Kind, wrapper: usize, in_bufs: &[usize], n_out: usize) -
     let tag = format!("{kind:?} wrapped as {} with inputs {in_bufs:?} buffers and {n_out} output buffers", WRAPPERS[wrapper]);
     // the &mut wrapper borrows these
     let (mut s1, mut s2, mut s3) = (Sum, SumBuffers, Pass);
-    let mut g: G = Graph::with_capacity(8, 8);
+    let mut g: G = Graph::with_capacity(12, 12);
     let srcs: Vec<NodeIndex> = in_bufs.iter().enumerate().map(|(k, &nb)| g.add_node(NodeData::new(Box::new(Src { k, calls: 0 }) as DynNode, sentinel_bufs(nb)))).collect();
     let node: DynNode = match (wrapper, kind) {
         (0, Kind::Sum) => Box::new(Sum),
@@ -163,7 +163,7 @@ fn stateless_case(kind: Kind, wrapper: usize, in_bufs: &[usize], n_out: usize) -
     // GraphNode maps outer inputs to inner placeholders by position in the `inputs` slice, i.e. in
     // petgraph's incoming order (newest edge first); Pass reads inputs[0]. The reference follows the
     // order the node actually receives, which the property leaves open: only single-input Pass is checked.
-    let mut p = Processor::<G>::with_capacity(8);
+    let mut p = Processor::<G>::with_capacity(12);
     let mut prev: Vec<Vec<f32>> = vec![vec![SENTINEL; LEN]; n_out];
     let mut prev_inner: Vec<Vec<f32>> = Vec::new();
     for call in 0..3 {
@@ -322,6 +322,26 @@ fn main() {
                 let in_bufs: Vec<usize> = (0..n_in).map(|j| (code / 4usize.pow(j as u32)) % 4).collect();
                 for n_out in 0..=3usize {
                     for w in 0..WRAPPERS.len() {
+                        let case = json!({"sys":"stateless","kind":format!("{kind:?}"),"wrapper":w,"in_bufs":in_bufs,"n_out":n_out});
+                        guard::enter(&case.to_string());
+                        evals += 1;
+                        match catch(|| stateless_case(kind, w, &in_bufs, n_out)) {
+                            Ok(None) => ctx.observe(common::fnv_str(&case.to_string())),
+                            Ok(Some((k, m))) => ctx.violation(&k, case, m, Some(&|| stateless_case(kind, w, &in_bufs, n_out).map(|e| e.1))),
+                            Err(p) => ctx.violation("node.panic", case, format!("panic: {p}"), None),
+                        }
+                    }
+                }
+            }
+        }
+    }
+    // scale probes: many inputs (4..=8) with patterned buffer counts
+    for kind in [Kind::Sum, Kind::SumBuffers] {
+        for n_in in 4..=8usize {
+            for pat in 0..4usize {
+                let in_bufs: Vec<usize> = (0..n_in).map(|j| [2, (j + pat) % 4, (j * 2 + pat) % 3, 3][pat]).collect();
+                for n_out in [1usize, 3] {
+                    for w in [0usize, 8] {
                         let case = json!({"sys":"stateless","kind":format!("{kind:?}"),"wrapper":w,"in_bufs":in_bufs,"n_out":n_out});
                         guard::enter(&case.to_string());
                         evals += 1;
